@@ -26,6 +26,11 @@ def programs(tier):
     S = lambda h, w: ("schedule", h, w)
     b1 = dict(init=[S("h0", "w0"), S("h1", "w0")], scripts={"w0": ["x", "y", "z"]})
     b2 = dict(init=[S("h0", "w0"), S("h1", "w1")], scripts={"w0": ["x", "y"], "w1": ["x", "y"]})
+    t1 = dict(init=[S("h0", "w0")], scripts={"w0": ["x"]})
+    P.append(("tiny-remove", dict(t1, threads=[[("remove", "h0", "w0")]])))
+    P.append(("tiny-unschedule", dict(t1, threads=[[("unschedule", "w0")]])))
+    P.append(("tiny-unschedule_all", dict(t1, threads=[[("unschedule_all",)]])))
+    P.append(("tiny-stop", dict(t1, threads=[[("stop",)]])))
     P.append(("remove-ext", dict(b1, threads=[[("remove", "h1", "w0")]])))
     P.append(("unschedule-ext", dict(b2, threads=[[("unschedule", "w1")]])))
     P.append(("unschedule_all-ext", dict(b2, threads=[[("unschedule_all",)]])))
@@ -60,4 +65,4 @@ def setup(tier):
 
 def run(ctx):
     hs, ctx.instrumented = setup(ctx.tier)
-    obsfam.run_family(ctx, hs)
+    obsfam.run_family(ctx, hs, deep_quick=("tiny-remove", "tiny-unschedule", "tiny-unschedule_all", "tiny-stop"))
